@@ -1,8 +1,14 @@
 #!/bin/sh
-# Offline setup: nothing to download.  Creates the scratch build dir; the Verus units are regenerated from /repo on every check.
+# Offline setup: nothing to download.  Creates the scratch build dir and pre-builds the native replay / bounded-sweep crate against /repo
+# (build output under /var/tmp, re-creatable; the Verus units are regenerated from /repo on every check).
 set -e
 cd "$(dirname "$0")"
 mkdir -p build evidence replays
 command -v verus >/dev/null || { echo "verus not on PATH"; exit 1; }
 python3 -c "import sys; sys.path.insert(0,'vk'); import rustlex, extract, props"
+python3 - <<'PY'
+import sys; sys.path.insert(0, 'vk')
+import replay_driver
+print("replay crate built:", replay_driver.build())
+PY
 echo "setup ok"
